@@ -142,7 +142,9 @@ Definition rec_step (t : list cand) (o : recop) : list cand :=
       if negb (N.eqb a pk) then t                               (* refused: ErrInvalidPubkey *)
       else if has_rec a t then upd_rec a (fun s => s + amt) t   (* the stored key is kept *)
       else t ++ [mkc a pk (wrap64 amt) amt]
-  | RUnstake a amt => upd_rec a (fun s => s - amt) t
+  | RUnstake a amt =>                                          (* since /repo e681066 HandleUnstake refuses *)
+      if existsb (fun c => N.eqb (c_addr c) a && (c_stake c - amt <? 0)) t then t   (* a negative result *)
+      else upd_rec a (fun s => s - amt) t
   | RRewrite a st => upd_rec a (fun _ => st) t
   | RDelete a => List.filter (fun c => negb (N.eqb (c_addr c) a)) t
   end.
